@@ -7,5 +7,6 @@ CONSTANTS
   DEV_NestedSupertype = FALSE
   DEV_OwnerImportTwice = TRUE
   DEV_OwnerNaming = TRUE
+  DEV_WorldMerge = TRUE
 INVARIANTS OneImportPerKey
 CHECK_DEADLOCK FALSE
